@@ -203,8 +203,10 @@ fn run_roundtrip(cx: &mut CaseCx, case: &Value) {
     let sb = msg.share.to_bytes();
     match rm::parse_adss(&sb) {
       Some(p) => {
-        if rm::print_adss(&p) != sb || p.threshold != t || p.s.y.len() != 1 || p.c.len() != 32 || p.d.len() != 32 || p.j.len() != 64 || msg.tag.len() != 32 {
-          cx.viol("C08/layout/share", format!("share layout unexpected: threshold {} (client {}), {} y, |C|={}, |D|={}, |J|={}, |tag|={}", p.threshold, t, p.s.y.len(), p.c.len(), p.d.len(), p.j.len(), msg.tag.len()), json!({"bytes": hexs(&sb)}));
+        // documented: 4-byte LE threshold, chunks, 64-byte authentication tag (the number of y values and the
+        // lengths of the encrypted fields are protocol choices, not part of the layout)
+        if rm::print_adss(&p) != sb || p.threshold != t || p.j.len() != 64 {
+          cx.viol("C08/layout/share", format!("share layout unexpected: threshold field {} (client used {}), |J|={}", p.threshold, t, p.j.len()), json!({"bytes": hexs(&sb)}));
         }
         // thresholds 0 and 2^32-1 survive a decode/encode cycle untouched
         for tv in [0u32, 1, 255, 256, 65535, 65536, u32::MAX] {
